@@ -3283,3 +3283,290 @@ func nilDerefs(p *Program, r *Report, scope func(*FuncInfo) bool) int {
 	}
 	return n
 }
+
+// connLeaks: a connection a function obtains (a *Conn, a net.Conn, a *tls.Conn returned together with an error by a
+// call) is closed, returned, stored, or handed to someone else on every path to every exit, except the exits taken
+// because that very call failed. An early error return that forgets the Close leaves a socket (and its two
+// goroutines) behind for the life of the process - "no connection is left open".
+func connLeaks(p *Program, r *Report) int {
+	isConnT := func(t types.Type) bool {
+		if t == nil {
+			return false
+		}
+		s := t.String()
+		return s == "*"+rootPath+".Conn" || s == "net.Conn" || s == "*crypto/tls.Conn"
+	}
+	// creators: calls that make a new connection which then belongs to the caller. The dial primitives, and the
+	// functions of the module whose every returned connection is the result of a creator (or a literal) that they
+	// have not stored anywhere themselves. A function that installs the connection somewhere and also returns it
+	// (attemptReconnect) is not a creator: its caller only looks at what is already owned.
+	var creates func(info *types.Info, c *ast.CallExpr, depth int) bool
+	creates = func(info *types.Info, c *ast.CallExpr, depth int) bool {
+		switch cn := calleeName(info, c); cn {
+		case "HostDialer.DialHost", "Dialer.DialContext", "net.Dial", "net.DialTimeout", "net.(*Dialer).DialContext", "net.(*Dialer).Dial", "tls.Dial", "tls.DialWithDialer":
+			return true
+		}
+		fn := calleeOf(info, c)
+		if fn == nil || depth > 3 {
+			return false
+		}
+		h := p.FuncOf(fn)
+		if h == nil || h.Decl.Body == nil || h.Pkg != p.Root {
+			return false
+		}
+		hinfo := h.Pkg.TypesInfo
+		nret, fresh := 0, true
+		for _, ex := range p.GraphOf(h).Exits() {
+			rs, ok := ex.Node.(*ast.ReturnStmt)
+			if !ok || len(rs.Results) == 0 {
+				continue
+			}
+			res := ast.Unparen(rs.Results[0])
+			if isNil(hinfo, res) {
+				continue
+			}
+			nret++
+			switch x := res.(type) {
+			case *ast.CallExpr:
+				if !creates(hinfo, x, depth+1) {
+					fresh = false
+				}
+			case *ast.Ident:
+				d := localDefMulti(hinfo, h, x)
+				ok := false
+				if d != nil {
+					if dc, isC := ast.Unparen(d).(*ast.CallExpr); isC && creates(hinfo, dc, depth+1) {
+						ok = true
+					}
+					if u, isU := ast.Unparen(d).(*ast.UnaryExpr); isU && u.Op == token.AND {
+						if _, isLit := ast.Unparen(u.X).(*ast.CompositeLit); isLit {
+							ok = true
+						}
+					}
+				}
+				// installed somewhere by the function itself: not the caller's to close
+				obj := hinfo.Uses[x]
+				ast.Inspect(h.Decl.Body, func(y ast.Node) bool {
+					if cc, isCC := y.(*ast.CallExpr); isCC {
+						for _, a := range cc.Args {
+							if isIdentOf(hinfo, a, obj) {
+								if fn2 := calleeOf(hinfo, cc); fn2 != nil && p.FuncOf(fn2) != nil && strings.Contains(strings.ToLower(fn2.Name()), "set") {
+									ok = false
+								}
+							}
+						}
+					}
+					return true
+				})
+				if !ok {
+					fresh = false
+				}
+			default:
+				fresh = false
+			}
+		}
+		return nret > 0 && fresh
+	}
+	n := 0
+	for _, fi := range p.SortedFuncs() {
+		if fi.Decl.Body == nil || fi.Pkg != p.Root {
+			continue
+		}
+		info := fi.Pkg.TypesInfo
+		type site struct {
+			as   *ast.AssignStmt
+			conn types.Object
+			err  types.Object
+		}
+		var sites []site
+		inspectNoLit(fi.Decl.Body, func(x ast.Node) bool {
+			as, ok := x.(*ast.AssignStmt)
+			if !ok || len(as.Rhs) != 1 || len(as.Lhs) != 2 {
+				return true
+			}
+			call, isCall := ast.Unparen(as.Rhs[0]).(*ast.CallExpr)
+			if !isCall || !creates(info, call, 0) {
+				return true
+			}
+			cid, ok1 := as.Lhs[0].(*ast.Ident)
+			eid, ok2 := as.Lhs[1].(*ast.Ident)
+			if !ok1 || !ok2 || cid.Name == "_" || !isConnT(info.TypeOf(cid)) || !isErrorType(info.TypeOf(eid)) {
+				return true
+			}
+			co, eo := info.ObjectOf(cid), info.ObjectOf(eid)
+			if co != nil {
+				sites = append(sites, site{as, co, eo})
+			}
+			return true
+		})
+		if len(sites) == 0 {
+			continue
+		}
+		g := p.GraphOf(fi)
+		for _, s := range sites {
+			s := s
+			mentionsConn := func(nd ast.Node) bool {
+				found := false
+				ast.Inspect(nd, func(y ast.Node) bool {
+					if id, ok := y.(*ast.Ident); ok && info.Uses[id] == s.conn {
+						found = true
+					}
+					return !found
+				})
+				return found
+			}
+			// what ends the obligation: any use other than a field read / nil test / method call that is not Close
+			discharges := func(nd ast.Node) bool {
+				if nd == ast.Node(s.as) {
+					return false
+				}
+				done := false
+				ast.Inspect(nd, func(y ast.Node) bool {
+					if done {
+						return false
+					}
+					switch z := y.(type) {
+					case *ast.CallExpr:
+						// c.Close() / c.closeWithError(..) / c.conn.Close()
+						if rx := recvExpr(z); rx != nil {
+							if root := rootIdent(rx); root != nil && info.Uses[root] == s.conn {
+								if sel, isSel := ast.Unparen(z.Fun).(*ast.SelectorExpr); isSel && strings.Contains(strings.ToLower(sel.Sel.Name), "close") {
+									done = true
+								}
+							}
+						}
+						// handed to a function as an argument
+						for _, a := range z.Args {
+							if id, isId := ast.Unparen(a).(*ast.Ident); isId && info.Uses[id] == s.conn {
+								done = true
+							}
+						}
+					case *ast.ReturnStmt:
+						for _, res := range z.Results {
+							if mentionsConn(res) {
+								done = true
+							}
+						}
+					case *ast.AssignStmt:
+						for i, rhs := range z.Rhs {
+							if mentionsConn(rhs) && i < len(z.Lhs) {
+								if id, isId := ast.Unparen(rhs).(*ast.Ident); isId && info.Uses[id] == s.conn {
+									done = true // stored somewhere / copied
+								}
+								if u, isU := ast.Unparen(rhs).(*ast.UnaryExpr); isU && u.Op == token.AND {
+									done = true
+								}
+							}
+							if cl, isCL := ast.Unparen(rhs).(*ast.CompositeLit); isCL && mentionsConn(cl) {
+								done = true
+							}
+							if u, isU := ast.Unparen(rhs).(*ast.UnaryExpr); isU {
+								if cl, isCL := ast.Unparen(u.X).(*ast.CompositeLit); isCL && mentionsConn(cl) {
+									done = true
+								}
+							}
+						}
+					case *ast.SendStmt:
+						if mentionsConn(z.Value) {
+							done = true
+						}
+					case *ast.FuncLit:
+						if mentionsConn(z.Body) {
+							done = true // captured: the closure is responsible
+						}
+						return false
+					case *ast.CompositeLit:
+						if mentionsConn(z) {
+							done = true
+						}
+					}
+					return true
+				})
+				return done
+			}
+			// path-sensitively: marks for "obtained", "discharged" and "the error variable was assigned again"
+			g.markNodes, g.unmarkNodes = map[ast.Node]string{}, map[ast.Node]string{}
+			inspectNoLit(fi.Decl.Body, func(x ast.Node) bool {
+				st, isStmt := x.(ast.Stmt)
+				if !isStmt {
+					return true
+				}
+				switch st.(type) {
+				case *ast.BlockStmt, *ast.IfStmt, *ast.ForStmt, *ast.RangeStmt, *ast.SwitchStmt, *ast.TypeSwitchStmt, *ast.SelectStmt, *ast.CaseClause, *ast.CommClause, *ast.LabeledStmt:
+					return true
+				}
+				if st == ast.Stmt(s.as) {
+					return true
+				}
+				if discharges(st) {
+					g.markNodes[st] = "done"
+					return true
+				}
+				if as, isA := st.(*ast.AssignStmt); isA && s.err != nil {
+					for _, l := range as.Lhs {
+						if isIdentOf(info, l, s.err) {
+							g.markNodes[st] = "stale"
+						}
+					}
+				}
+				return true
+			})
+			g.markNodes[s.as] = "got"
+			g.unmarkNodes[s.as] = "done,stale"
+			errName := ""
+			if s.err != nil {
+				errName = s.err.Name()
+			}
+			ps := g.GuardFactsPSAbout(func(atom string) bool {
+				if strings.HasPrefix(atom, "§") || !strings.ContainsAny(atom, " .(") {
+					return true
+				}
+				return atom == s.conn.Name()+" == nil" || errName != "" && atom == errName+" == nil"
+			})
+			for _, e := range g.Exits() {
+				if e.Kind == ExitPanic {
+					continue
+				}
+				var at ast.Node = fi.Decl
+				var ds FactsPS
+				var ok bool
+				if e.Node != nil {
+					ds, ok = ps.Before(e.Node)
+					at = e.Node
+				} else {
+					ds, ok = ps.AtExit(e)
+				}
+				if !ok {
+					continue
+				}
+				name := fmt.Sprintf("%s closes or hands on the connection %s it obtained at %s", fi.Name, s.conn.Name(), p.Pos(s.as))
+				// the return statement itself may hand the connection back
+				if e.Node != nil && discharges(e.Node) {
+					n++
+					r.OK(at, name, "returned")
+					continue
+				}
+				leak := false
+				for _, d := range ds {
+					if !d.m["§got"] || d.m["§done"] {
+						continue
+					}
+					if v, known := d.KnownStr(s.conn.Name() + " == nil"); known && v {
+						continue
+					}
+					if errName != "" && !d.m["§stale"] {
+						if v, known := d.KnownStr(errName + " == nil"); known && !v {
+							continue
+						}
+					}
+					leak = true
+				}
+				n++
+				r.Check(!leak, at, name, "Close / return / store / hand-over on every path (or the call that obtains it failed)",
+					"the function can leave here with the connection it obtained neither closed nor given to anyone: the socket and the goroutines serving it stay behind for the life of the process")
+			}
+			g.markNodes, g.unmarkNodes = nil, nil
+		}
+	}
+	return n
+}
